@@ -1,6 +1,8 @@
 """C11 — session-event classifier: station lists of every length/position, table contents, all opcodes"""
 from .common import ident
 
+from . import auto
+
 PROP = 'C11'
 PREDICATE = 'C11'
 LEAN_TARGETS = ['LLTD.Props.C11']
@@ -91,6 +93,9 @@ def cases(rng, tier, X):
                          declared=rng.choice([None, None, None, nst + 1, 0xffff, 0]), eth=rng.choice([None, None, rng.choice(MAPPERS), '0200000000bb']))
             ops.append('ev 0 %s avail=%d tbl=%s' % (f, len(f) // 2 + rng.choice([0, 0, 3, 6, 700]), rng.choice(['0', '0', '0', '-'])))
         out.append(('rand%d' % k, ops))
+    # universal automata schedule (all public calls, missing objects, near-colliding keys, bridged frames, every deadline): this check's predicate on it
+    for k in range(60 if tier == 'quick' else 6000):
+        out.append(('au%d' % k, auto.schedule(rng)))
     return out
 
 
